@@ -516,6 +516,10 @@ func c26Child(rec *kit.Rec) {
 			rec = kit.Open("C26")
 		}
 		c := cases[i]
+		if skip["dec:"+c.Dec] {
+			rec.Count("hostile_skipped_encoder_does_not_round_trip", 1)
+			continue
+		}
 		if skip[c.Class] || allocViol[c.Class] >= 2 {
 			rec.Count("hostile_skipped_class_already_reported", 1)
 			continue
@@ -590,6 +594,7 @@ func TestVerif_C26(t *testing.T) {
 	// Part 1: round trips
 	nRT := rec.N(6000, 200000)
 	r := rec.Rand(2601)
+	brokenRT := map[string]bool{}
 	for i := 0; i < nRT; i++ {
 		dec := c26Decoders[i%3]
 		var enc []byte
@@ -605,6 +610,9 @@ func TestVerif_C26(t *testing.T) {
 			return map[string]any{"roundtrip": dec, "entries": size, "encoding_len": len(enc), "encoding_hex_head": hex.EncodeToString(enc[:min(len(enc), 48)])}
 		})
 		if class != "" {
+			// the hostile inputs are derived from valid encodings: with an encoder that does
+			// not round-trip they mean nothing, and the decoder is not fed them
+			brokenRT[dec] = true
 			rec.Violation("roundtrip/"+dec+"/"+class, fmt.Sprintf("%s: %s", c26TypeName(dec), clip(detail, 600)),
 				map[string]any{"decoder": dec, "entries": size, "encoding_hex": hex.EncodeToString(enc[:min(len(enc), 4096)]), "detail": clip(detail, 3000)})
 		}
@@ -617,9 +625,13 @@ func TestVerif_C26(t *testing.T) {
 	confirm := rec.N(5000, 30000)                      // ms: budget of the re-run
 	env := []string{"GOMEMLIMIT=3GiB", "GOMAXPROCS=2"} // 2 Ps: ReadMemStats stops the world twice per decode
 	skip := map[string]bool{}
+	for dec := range brokenRT {
+		skip["dec:"+dec] = true
+		rec.Note("hostile_part_skipped", dec+": its encoder does not round-trip (reported above)")
+	}
 	sightings := map[string]int{} // class -> stalls + deaths
 	confirmed := map[string]int{} // decoder -> stalls re-run alone
-	deaths, maxDeaths := 0, rec.N(150, 600)
+	deaths, maxDeaths := 0, rec.N(90, 600)
 	skipList := func() []string {
 		l := make([]string, 0, len(skip))
 		for k := range skip {
